@@ -141,7 +141,7 @@ theorem le_foldl_maxInt (f : Nat → Int) : ∀ (l : List Nat) (m : Int) (x : Na
 theorem breakWF_after_longestpath (g1 gl g2 : G) (hA : AdjLL g1) (hac : hasCycles g1 = .ok false)
     (hl : execLongestPath g1 = .ok gl) (hb : buildLayers gl = .ok g2) :
     BreakWF g2 ∧ (∀ e ∈ g2.elist, (g2.layerOf (g2.edge e).dst - g2.layerOf (g2.edge e).src).toNat ≤ g2.layers.size + 2) ∧
-      DownNL g2 := by
+      DownNL g2 ∧ (∀ e ∈ g2.elist, 0 ≤ g2.layerOf (g2.edge e).src ∧ g2.layerOf (g2.edge e).dst < (g2.layers.size : Int)) := by
   obtain ⟨hE, hL, hN, hio⟩ := execLongestPath_frame g1 gl hl
   obtain ⟨bN, bE, bL, bS⟩ := buildLayers_frame gl g2 hb
   have hedge : ∀ e, g2.edge e = g1.edge e := by intro e; simp only [G.edge, bE, hE]
@@ -167,7 +167,7 @@ theorem breakWF_after_longestpath (g1 gl g2 : G) (hA : AdjLL g1) (hac : hasCycle
       simpa [G.nodeIds] using this
     · unfold outNbrs
       exact List.mem_map.2 ⟨e, (hA.listed e he).1, rfl⟩
-  refine ⟨⟨?_, ?_, ?_⟩, ?_, ?_⟩
+  refine ⟨⟨?_, ?_, ?_⟩, ?_, ?_, ?_⟩
   · intro e he; rw [hes]; exact hA.adj.el e (hel ▸ he)
   · intro e he; rw [hedge, hns]; exact hA.adj.ends e (hA.adj.el e (hel ▸ he))
   · intro e he
@@ -187,6 +187,15 @@ theorem breakWF_after_longestpath (g1 gl g2 : G) (hA : AdjLL g1) (hac : hasCycle
     rw [hedge] at hne ⊢
     rw [hlay, hlay]
     exact hdown e (hel ▸ he) (fun h => hne h.symm)
+  · intro e he
+    rw [hedge, hlay, hlay, bS]
+    have hends := hA.adj.ends e (hA.adj.el e (hel ▸ he))
+    have h1 : gl.layerOf (g1.edge e).dst ≤ gl.nodeIds.foldl (fun m n => max m (gl.layerOf n)) 0 :=
+      le_foldl_maxInt gl.layerOf gl.nodeIds 0 _ (by simp only [G.nodeIds, List.mem_range, hN]; exact hends.2)
+    have h2 := hnonneg (g1.edge e).src (by simp only [G.nodeIds, List.mem_range, hN]; exact hends.1)
+    have h0 : (0 : Int) ≤ gl.nodeIds.foldl (fun m n => max m (gl.layerOf n)) 0 := foldl_maxInt_ge gl.layerOf gl.nodeIds 0
+    refine ⟨h2, ?_⟩
+    omega
 
 /-- **C01, for every input, through the cutting of long edges (LongestPath layerer)**: for every non-empty edge list, every
     option set with the LongestPath layerer, every component of more than one node and either cycle breaker, whatever phase 1
@@ -213,7 +222,7 @@ theorem C01_longestpath_upto_break_any_input (cfg : Cfg) (es : InEdges) (hne : e
   | error e => rw [hl] at hg2; cases hg2
   | ok gl =>
     rw [hl] at hg2
-    obtain ⟨hwf, hspan, _⟩ := breakWF_after_longestpath g1 gl g2 hA hac hl hg2
+    obtain ⟨hwf, hspan, _, _⟩ := breakWF_after_longestpath g1 gl g2 hA hac hl hg2
     exact breakLongEdges_total g2 hwf hspan
 
 /-- C03 for the LongestPath layerer on every input, in terms of the edge LIST: every listed edge that is not a self-loop points
@@ -269,9 +278,100 @@ theorem C03_longestpath_proper_after_break_any_input (cfg : Cfg) (es : InEdges) 
   | error e => rw [hl] at hg2; cases hg2
   | ok gl =>
     rw [hl] at hg2
-    obtain ⟨hwf, hspan, hdn⟩ := breakWF_after_longestpath g1 gl g2 hA hac hl hg2
+    obtain ⟨hwf, hspan, hdn, _⟩ := breakWF_after_longestpath g1 gl g2 hA hac hl hg2
     obtain ⟨g3, hg3⟩ := breakLongEdges_total g2 hwf hspan
     exact ⟨g2, g3, hp, hg3, (breakLongEdges_proper g2 g3 hwf hdn hg3).2⟩
+
+/-- the ordering projection keeps edges, edge list and the layer of every node: a proper layering stays proper -/
+theorem proper_orderWMedianP (k : Nat) (g r : G) (x : Nat) (h : orderWMedianP k g = .ok (r, x)) (hp : Proper g) : Proper r := by
+  unfold orderWMedianP at h
+  simp only [bind, Except.bind] at h
+  cases ho : orderWMedian k g with
+  | error e => rw [ho] at h; cases h
+  | ok p =>
+    obtain ⟨g', x'⟩ := p
+    rw [ho] at h
+    simp only at h
+    split at h
+    · cases h
+    · split at h
+      · cases h
+      · simp only [pure, Except.pure, Except.ok.injEq, Prod.mk.injEq] at h
+        obtain ⟨rfl, _⟩ := h
+        intro e he hne
+        have hl : ∀ n, G.layerOf { g with nodes := g.nodes.mapIdx fun i nd => { nd with pos := (g'.node i).pos }, layers := g'.layers } n
+            = g.layerOf n := by
+          intro n
+          simp only [G.layerOf, G.node, Array.getD_eq_getD_getElem?, Array.getElem?_mapIdx]
+          cases g.nodes[n]? <;> simp
+        rw [hl, hl]
+        exact hp e he hne
+
+/-- **"layered → proper & ordered", for every input (LongestPath layerer)**: whatever the ordering phase of the composed model
+    returns is a PROPER layering (every listed edge that is not a self-loop joins two consecutive layers, pointing down) — for every
+    non-empty edge list, every option set with the LongestPath layerer, either breaker, every component of more than one node.
+    (That its layer lists are ordered by LayerPos is `C12_ordered_after_phase3`.) -/
+theorem C03_longestpath_proper_after_phase3_any_input (cfg : Cfg) (es : InEdges) (hne : es ≠ []) (hp2 : cfg.p2 = 1) :
+    ∃ cs, preProcess cfg es = .ok cs ∧ ∀ c ∈ cs, 2 ≤ c.1.nodes.size → ∀ alg g1, phase1 alg c.1 = .ok g1 →
+      ∃ g2, phase2Model cfg g1 = .ok g2 ∧
+        ∀ g3, phase3Model (fun g => (orderWMedianP 24 g).map (·.1)) g2 = .ok g3 → Proper g3 := by
+  obtain ⟨cs, hcs⟩ := preProcess_total cfg es hne
+  refine ⟨cs, hcs, fun c hc hn2 alg g1 h1 => ?_⟩
+  have hn : (c.1.nodes.size == 1) = false := by simp; omega
+  have hA := adjLL_phase1 alg c.1 g1 (adjLL_preProcess cfg es cs hcs c hc) h1
+  have hac := phase1_ok_acyclic alg c.1 g1 hn h1
+  have hsz : (g1.nodes.size == 1) = false := by
+    have := (statEq_phase1 alg c.1 g1 h1).1
+    simp; omega
+  obtain ⟨g2, hg2⟩ := longestPath_total_of_acyclic g1 hA.adj hac
+  have hp : phase2Model cfg g1 = .ok g2 := by
+    unfold phase2Model
+    simp only [hsz, Bool.false_eq_true, if_false, hp2, beq_self_eq_true, if_true]
+    exact hg2
+  refine ⟨g2, hp, ?_⟩
+  simp only [bind, Except.bind] at hg2
+  cases hl : execLongestPath g1 with
+  | error e => rw [hl] at hg2; cases hg2
+  | ok gl =>
+    rw [hl] at hg2
+    obtain ⟨hwf, hspan, hdn, hbd⟩ := breakWF_after_longestpath g1 gl g2 hA hac hl hg2
+    intro g3 h3
+    unfold phase3Model at h3
+    split at h3
+    · -- one layer only: there is no listed edge that is not a self-loop
+      rename_i hone
+      simp only [pure, Except.pure, Except.ok.injEq] at h3
+      subst h3
+      intro e he hne'
+      have hd := hdn e he hne'
+      obtain ⟨b1, b2⟩ := hbd e he
+      have hns : g2.nodes.size ≠ 1 := by
+        obtain ⟨_, _, hN, _⟩ := execLongestPath_frame g1 gl hl
+        obtain ⟨bN, _, _, _⟩ := buildLayers_frame gl g2 hg2
+        have : g1.nodes.size ≠ 1 := by simpa using hsz
+        rw [bN, hN]; exact this
+      have hls : g2.layers.size = 1 := by
+        have hone' : (g2.nodes.size == 1) = true ∨ (g2.layers.size == 1) = true := by
+          simpa [Bool.or_eq_true] using hone
+        rcases hone' with h | h
+        · exact absurd (by simpa using h) hns
+        · simpa using h
+      rw [hls] at b2
+      omega
+    · simp only [bind, Except.bind] at h3
+      cases hb : breakLongEdges g2 with
+      | error e => rw [hb] at h3; cases h3
+      | ok gb =>
+        rw [hb] at h3
+        simp only at h3
+        have hpb := (breakLongEdges_proper g2 gb hwf hdn hb).2
+        cases ho : orderWMedianP 24 gb with
+        | error e => simp [ho, Except.map] at h3
+        | ok p =>
+          obtain ⟨r, x⟩ := p
+          simp only [ho, Except.map, Except.ok.injEq] at h3
+          subst h3
+          exact proper_orderWMedianP 24 gb r x ho hpb
 
 /-- the premises are satisfiable and the chain is exercised: a 3-cycle with a chord and a pendant path, LongestPath layerer -/
 example : ∃ cs, preProcess { p2 := 1 } [("a", "b"), ("b", "c"), ("c", "a"), ("a", "c"), ("c", "d"), ("d", "e"), ("a", "e")] = .ok cs :=
